@@ -239,3 +239,44 @@ def unit_boundaries():
         if o_['status'] == 'refuted': o_['replay'] = BOUND_NATIVE
     for o_ in O: o_.pop('cex_raw', None)
     return res
+
+
+def unit_admissible():
+    """C17: sound speed (hence density and pressure, which are positive multiples of cs and cs^3) is non-negative on each flow region.
+    Each sign condition is written as (positive factor) x (function linear in (x, t)); a linear function on a polygon attains its minimum at a vertex
+    (cited lemma: the polygon lies in the convex hull of its vertices), so it is proved at the vertices computed by the real constructor."""
+    from vc import extract
+    res = {'obligations': [], 'functions': functions() + [{'ref': SRC + '::EscapeOfHEProducts.__init__', 'sha256_16': R.source_hash(R.func_ref(SRC + '::EscapeOfHEProducts.__init__'))}], 'engine_errors': []}; O = res['obligations']
+    hy = [up < D / 4, up > 0]
+    try:
+        reg = regions()
+        ps = [p for p in extract.run_ctor(KEY, {'D': D, 'rho_0': rho_0, 'up': up, 'xtilde': xtilde}, hyps=hy) if p.outcome == 'return']
+        if len(ps) != 1: raise Unsupported('constructor: %d accepting paths' % len(ps))
+        cor = ps[0].value.attrs.get('corners'); hy = hy + list(ps[0].pc)
+    except Unsupported as u_:
+        O.append(core.Obl('C17/ehep/extraction', 'open', 'extraction', 0.0, detail=str(u_)[:300])); return res
+    def pts(v):
+        out = []
+        for q in (v.items if hasattr(v, 'items') and not isinstance(v, dict) else v):
+            a_, b_ = (q.items if hasattr(q, 'items') and not isinstance(q, dict) else q)
+            out.append((sp.simplify(sp.sympify(a_)), sp.simplify(sp.sympify(b_))))
+        return out
+    tt = xtilde / D
+    # cs = factor * linear(x, t) with factor > 0 inside the region (t > 0; t > ttilde in II, V; D t > xtilde in IV)
+    lin = {'I': (x + D * t / 2, 1 / (2 * t)), 'III': (sp.Integer(1) * (up + D / 2), sp.Integer(1)), 'IV': ((up + D / 4) * (D * t - xtilde) - D * (x - xtilde) / 2, 1 / (D * t - xtilde)),
+           'V': ((D - up) * tt + 0 * x, 1 / (t - tt)), 'II': (x * (t - tt) - (x - xtilde) * t, 1 / (2 * t * (t - tt)))}
+    for lab, (L_, fac) in sorted(lin.items()):
+        F = reg[lab][0]
+        # the decomposition is the code's formula (the max(., 0) clamp of region II is the flowing branch)
+        o = core.prove_zero('C17/ehep/region_%s/cs=factor*linear' % lab, F['cs'] - fac * L_, hy + reg[lab][1], goal_text='sound speed of region %s == (%s) * (function linear in x and t)' % (lab, fac))
+        o.pop('cex_raw', None); O.append(o)
+        for vi, (xv, tv) in enumerate(pts(cor[lab])):
+            o = core.prove_valid('C17/ehep/region_%s/vertex%d:linear>=0' % (lab, vi), hy, L_.subs({x: xv, t: tv}) >= 0, goal_text='the linear function is non-negative at vertex %d of the region polygon' % vi)
+            o.pop('cex_raw', None); O.append(o)
+    # the factors are positive: their (linear) denominators are non-negative at every vertex of the region concerned
+    for lab, den in (('II', t - tt), ('V', t - tt), ('IV', D * t - xtilde), ('I', t), ('II', t)):
+        for vi, (xv, tv) in enumerate(pts(cor[lab])):
+            o = core.prove_valid('C17/ehep/region_%s/vertex%d:denominator(%s)>=0' % (lab, vi, str(den).replace(' ', '')), hy, den.subs({x: xv, t: tv}) >= 0, goal_text='%s >= 0 at vertex %d of region %s' % (den, vi, lab))
+            o.pop('cex_raw', None); O.append(o)
+    O.append(core.prove_valid('C17/ehep/rho,p_from_cs', [], sp.And(sp.Rational(16, 9) > 0, sp.Rational(16, 27) > 0), goal_text='p_rho(): density and pressure are positive multiples of cs and cs^3'))
+    return res
